@@ -578,6 +578,21 @@ func (c *SpecCtx) trSel(x *SSel) Term {
 			}
 		}
 	}
+	// a ghost field of an address-taken local of struct type belongs to the object the local lives in (&b)
+	if id, ok := x.X.(*SIdent); ok && !c.noState && c.state() != nil {
+		if _, isSpecVar := c.vars[id.Name]; !isSpecVar {
+			if v, ok := c.state().names[id.Name]; ok && vc.cellVars[v] {
+				if _, isStruct := v.Type().Underlying().(*types.Struct); isStruct {
+					ps := vc.U.sortOf(types.NewPointer(v.Type()))
+					if gf := vc.eng.lookupGhostField(ps, x.Sel); gf != nil {
+						if ref, ok := c.state().vars[v]; ok {
+							return c.ghostFieldRead(c.state(), Term{ref.S, ps}, gf)
+						}
+					}
+				}
+			}
+		}
+	}
 	base := c.tr(x.X)
 	if base.Sort == nil {
 		return c.errorf("selector on untyped term")
@@ -818,6 +833,12 @@ func (c *SpecCtx) trCall(x *SCall) Term {
 		vc.U.ensureFun("runeSz", "(Str Int) Int")
 		a, b := c.tr(x.Args[0]), c.tr(x.Args[1])
 		return Term{"(" + specText(x.Fun) + " " + a.S + " " + b.S + ")", sortInt}
+	case "zeroof": // zeroof(T): the zero value of the (possibly generic) type T
+		_, zs := c.resolveType(specText(x.Args[0]))
+		if zs == nil {
+			return c.errorf("zeroof: cannot resolve type %s", specText(x.Args[0]))
+		}
+		return Term{vc.U.zero(zs), zs}
 	case "emptyset":
 		_, s := c.resolveType(specText(x.Args[0]))
 		ss := vc.U.setSort(s)
